@@ -3104,14 +3104,16 @@ class Set(Collection):
         setdata.clear()
         setdata |= new_items
         if setdata.count is not None: setdata.count = len(new_items)
-        added = setdata.added
-        removed = setdata.removed
         if to_add:
+            removed = setdata.removed
             if removed: (to_add, setdata.removed) = (to_add - removed, removed - to_add)
+            added = setdata.added
             if added: added |= to_add
             else: setdata.added = to_add  # added may be None
         if to_remove:
+            added = setdata.added  # (re-read: setdata.added and setdata.removed can be replaced by new sets above)
             if added: (to_remove, setdata.added) = (to_remove - added, added - to_remove)
+            removed = setdata.removed
             if removed: removed |= to_remove
             else: setdata.removed = to_remove  # removed may be None
         cache.modified_collections[attr].add(obj)
